@@ -31,19 +31,21 @@ type CrashCfg struct {
 }
 
 type CrashProbe struct {
-	Ev       string  `json:"ev"` // "crashprobe"
-	P        int     `json:"p"`
-	NLost    int     `json:"nlost"`
-	Window   int     `json:"window"`
-	Acked    int     `json:"acked"`
-	Invoked  int     `json:"invoked"`
-	OK       bool    `json:"ok"`
-	Err      string  `json:"err"`
-	Count    int     `json:"count"` // crash images with this same outcome
-	Depth    int     `json:"depth"`
-	Dump     *Dump   `json:"dump"`
-	Snap     *Snap   `json:"snap"`
-	Inflight []*Call `json:"inflight"`
+	Ev       string    `json:"ev"` // "crashprobe"
+	P        int       `json:"p"`
+	NLost    int       `json:"nlost"`
+	Window   int       `json:"window"`
+	Acked    int       `json:"acked"`
+	Invoked  int       `json:"invoked"`
+	OK       bool      `json:"ok"`
+	Err      string    `json:"err"`
+	Count    int       `json:"count"` // crash images with this same outcome
+	Depth    int       `json:"depth"`
+	Dump     *Dump     `json:"dump"`
+	Snap     *Snap     `json:"snap"`
+	Inflight []*Call   `json:"inflight"`
+	RawReads []RawRead `json:"rawreads"` // start-up reads of home blocks that the recovered log supersedes
+	InoStart int       `json:"inostart"`
 }
 
 func quiesce(d *vdisk.Disk, s *Srv) {
@@ -60,8 +62,26 @@ func quiesce(d *vdisk.Disk, s *Srv) {
 }
 
 // recoverOn runs the real server on img and reports what it shows.
+// RawRead is a read of a home block during start-up whose recovered log holds a newer version of that block.
+type RawRead struct {
+	Addr   int    `json:"addr"`
+	H      string `json:"h"`      // content the read returned
+	Logged string `json:"logged"` // content the recovered log holds for that block
+}
+
+var lastRawReads []RawRead
+
 func recoverOn(img *vdisk.Disk, unstable bool, ext Extents) (ok bool, errs string, dump *Dump, snap *Snap) {
+	logged := LoggedOnDisk(img)
+	raws := []RawRead{}
+	img.OnRead = func(a uint64, data []byte) {
+		if l, ok := logged[a]; ok && a >= walHomeLo {
+			raws = append(raws, RawRead{Addr: int(a), H: hashBlock(data), Logged: l})
+		}
+	}
 	s, err := Start(img, unstable)
+	img.OnRead = nil
+	lastRawReads = raws
 	if err != nil {
 		return false, err.Error(), &Dump{Ev: "dump", Who: "recovered", Objs: []DObj{}}, nil
 	}
@@ -74,6 +94,16 @@ func recoverOn(img *vdisk.Disk, unstable bool, ext Extents) (ok bool, errs strin
 		s.Shutdown()
 	}()
 	return true, "", dump, snap
+}
+
+func staleOnly(r []RawRead, inostart int) []RawRead {
+	o := []RawRead{}
+	for _, x := range r {
+		if x.H != x.Logged && x.Addr != inostart {
+			o = append(o, x)
+		}
+	}
+	return o
 }
 
 func hashOf(v interface{}) string {
@@ -118,8 +148,7 @@ func RunCrash(cfg CrashCfg, t *Trace, seg int) int {
 	if err != nil {
 		panic(err)
 	}
-	quiesce(d, s)
-	p0 := d.NEvents() // crash points before this belong to the initial format
+	p0 := d.NEvents() // crash points before the first MakeNfs returned belong to the initial format
 	g := &seqGen{cfg: SeqCfg{Seed: cfg.Seed, Profile: cfg.Profile, Avoid: cfg.Avoid, Unstable: cfg.Unstable, DiskSz: cfg.DiskSz},
 		r: rand.New(rand.NewSource(int64(cfg.Seed))), s: s, t: t, enumC: map[string][]int{}, ext: Extents{}, mark: true}
 	g.root = &gobj{fh: RootFh(), kind: 2, alive: true}
@@ -193,8 +222,11 @@ func RunCrash(cfg CrashCfg, t *Trace, seg int) int {
 			img := vdisk.CrashImage(base, events, p, lost)
 			ok, es, dump, snap := recoverOn(img, cfg.Unstable, g.ext)
 			cp := &CrashProbe{Ev: "crashprobe", P: p, NLost: len(lost), Window: len(win), Acked: pts[p].acked, Invoked: pts[p].invoked,
-				OK: ok, Err: es, Count: 1, Depth: 1, Dump: dump, Snap: snap, Inflight: []*Call{}}
-			key := fmt.Sprint(cp.Acked, cp.Invoked, ok, hashOf(dump), hashOf(snap))
+				OK: ok, Err: es, Count: 1, Depth: 1, Dump: dump, Snap: snap, Inflight: []*Call{}, RawReads: lastRawReads}
+			if snap != nil {
+				cp.InoStart = snap.InoStart
+			}
+			key := fmt.Sprint(cp.Acked, cp.Invoked, ok, hashOf(dump), hashOf(snap), len(staleOnly(lastRawReads, cp.InoStart)) > 0)
 			if q, dup := seen[key]; dup {
 				q.Count++
 				continue
@@ -203,6 +235,9 @@ func RunCrash(cfg CrashCfg, t *Trace, seg int) int {
 			order = append(order, cp)
 			contPts = append(contPts, contPt{p, lost})
 		}
+	}
+	for _, w := range WalStream(events, p0) {
+		t.Emit(w)
 	}
 	for _, cp := range order {
 		t.Emit(cp)
@@ -234,7 +269,10 @@ func RunCrash(cfg CrashCfg, t *Trace, seg int) int {
 				img2 := vdisk.CrashImage(b2, ev2, q, lost)
 				ok, es, dump, snap := recoverOn(img2, cfg.Unstable, g.ext)
 				cp := &CrashProbe{Ev: "crashprobe", P: c.p, NLost: len(c.lost) + len(lost), Window: len(win), Acked: pts[c.p].acked,
-					Invoked: pts[c.p].invoked, OK: ok, Err: es, Count: 1, Depth: 2, Dump: dump, Snap: snap, Inflight: []*Call{}}
+					Invoked: pts[c.p].invoked, OK: ok, Err: es, Count: 1, Depth: 2, Dump: dump, Snap: snap, Inflight: []*Call{}, RawReads: lastRawReads}
+				if snap != nil {
+					cp.InoStart = snap.InoStart
+				}
 				key := fmt.Sprint(cp.Acked, cp.Invoked, ok, hashOf(dump), hashOf(snap))
 				if q2, dup := seen[key]; dup {
 					q2.Count++
@@ -272,7 +310,7 @@ func RunCrash(cfg CrashCfg, t *Trace, seg int) int {
 		g2.i = 100000
 		g2.wtmax, g2.maxfs, g2.nmax = g.wtmax, g.maxfs, g.nmax
 		t.Emit(&CrashProbe{Ev: "crash", P: c.p, NLost: len(c.lost), Acked: ak, Invoked: iv, OK: true, Count: 1, Depth: 1,
-			Dump: g2.mkDump(s2, "recovered"), Snap: snap, Inflight: infl})
+			Dump: g2.mkDump(s2, "recovered"), Snap: snap, Inflight: infl, RawReads: []RawRead{}})
 		// objects the generator may use afterwards: those it knew (dead ones are fine too: they must be stale)
 		g2.objs = g.objs
 		g2.dead = g.dead
